@@ -8,11 +8,11 @@ previous concatenate to the unpaged result; MinRow and MaxRow return the smalles
 that has at least one bit (within the filter).
 -/
 import PV.C16.Lemmas3
+import PV.C16.Paging
+import PV.C16.RowsExec
+import PV.C16.WithRows
 namespace PV.C16
 open List
-
-/-- Columns of a fragment are columns inside the shard. -/
-def Store.WF (s : Store) : Prop := ∀ p ∈ s, p.2 < shardWidth
 
 /-! ### Rows on one fragment: the filter chain walk -/
 
@@ -107,6 +107,305 @@ theorem C16_rows (s : Store) (hwf : s.WF) (start : Nat) (col limit : Option Nat)
     show rowsLoop cs (colFilter col ++ [Filter.limit l]) none = _
     rw [rowsLoop_col_lim, hwalk]
     rfl
+
+/-- `fragment.rows(0, filterWithRows(ids))` (the chain GroupBy builds for a child with limit or
+column): exactly the rows of the fragment that are in `ids`, ascending — the stateful search
+position and the early `done` included. -/
+theorem C16_rows_withRows (s : Store) (hwf : s.WF) (ids : List Nat) (hs : ids.Pairwise (· < ·)) :
+    fragRows s 0 [Filter.rows ids 0] = (Spec.storeRows s).filter ids.contains := by
+  have hsorted := conts_rows_sorted s 0
+  have hrl := rowsLoop_rows ids hs ((conts s).filter (fun kc => kc.1 ≥ 0 * contsPerRow)) hsorted 0 none
+    (fun kc _ x hx => by simp at hx)
+  unfold fragRows
+  rw [hrl]
+  apply sorted_ext
+  · exact (walkP_sound _ _ none hsorted (fun _ _ => trivial)).1
+  · exact (sorted_sortDedup _).filter _
+  · intro x
+    rw [mem_walkP_none _ _ hsorted x]
+    simp only [List.mem_filter, Spec.storeRows, mem_sortDedup, List.mem_map]
+    constructor
+    · rintro ⟨kc, hkc, hrow, hpass⟩
+      have hmem := hkc.1
+      obtain ⟨⟨p, hp, hkey⟩, _⟩ := (mem_conts s kc).mp hmem
+      have hpx : p.1 = x := by
+        rw [← hrow, rowOfC, ← hkey]; exact (keyOf_div p (hwf p hp)).symm
+      refine ⟨⟨p, hp, hpx⟩, ?_⟩
+      rw [← hrow]; exact hpass
+    · rintro ⟨⟨p, hp, hpx⟩, hc⟩
+      refine ⟨(keyOf p, s.filter (fun q => keyOf q == keyOf p)), ?_, ?_, ?_⟩
+      · exact ⟨(mem_conts s _).mpr ⟨⟨p, hp, rfl⟩, rfl⟩, by simp⟩
+      · simp only [rowOfC]; rw [keyOf_div p (hwf p hp)]; exact hpx
+      · simp only [rowOfC]; rw [keyOf_div p (hwf p hp), hpx]; exact hc
+
+/-! ### Rows through the executor: views of a time range, shards, previous, limit -/
+
+/-- The stores executeRowsShard visits for one shard. -/
+def viewStores (db : DB) (field sh : Nat) (views : List (Option Nat)) : List Store :=
+  views.filterMap (fun v => db.frag ⟨field, v, sh⟩)
+
+theorem rowsShardLoop_spec (db : DB) (a : RowsArgs) (sh start : Nat) (c : Option Nat)
+    (hc : ∀ x, c = some x → x < shardWidth)
+    (hwf : ∀ v s, db.frag ⟨a.field, v, sh⟩ = some s → s.WF) (views : List (Option Nat)) (X : List Nat) :
+    rowsShardLoop db a sh start (colFilter c) (a.limit.getD noLimit) views ((sortDedup X).take (a.limit.getD noLimit)) =
+      (sortDedup (X ++ (viewStores db a.field sh views).flatMap (fun s => Spec.fragRows s start c none))).take
+        (a.limit.getD noLimit) := by
+  induction views generalizing X with
+  | nil => simp [rowsShardLoop, viewStores]
+  | cons v vs ih =>
+    unfold rowsShardLoop
+    cases hf : db.frag ⟨a.field, v, sh⟩ with
+    | none =>
+      simp only
+      have : viewStores db a.field sh (v :: vs) = viewStores db a.field sh vs := by
+        simp [viewStores, hf]
+      rw [this]; exact ih X
+    | some s =>
+      simp only
+      have hvs : viewStores db a.field sh (v :: vs) = s :: viewStores db a.field sh vs := by
+        simp [viewStores, hf]
+      rw [hvs, List.flatMap_cons, ← List.append_assoc]
+      have hs := hwf v s hf
+      have hsorted := spec_fragRows_sorted s start c
+      cases hl : a.limit with
+      | none =>
+        simp only [hl, Option.getD_none] at ih ⊢
+        have hfr : fragRows s start (colFilter c) = Spec.fragRows s start c none := by
+          have := C16_rows s hs start c none hc
+          simpa [limFilter] using this
+        rw [hfr, merge_step_all X _ hsorted]
+        exact ih _
+      | some l =>
+        simp only [hl, Option.getD_some] at ih ⊢
+        have hfr : fragRows s start (colFilter c ++ [Filter.limit l]) = (Spec.fragRows s start c none).take l := by
+          have := C16_rows s hs start c (some l) hc
+          simpa [limFilter, Spec.fragRows] using this
+        rw [hfr, merge_step X _ hsorted l l (Nat.le_refl _)]
+        exact ih _
+
+/-- What one shard contributes to Rows (before `limit`). -/
+def shardRows (db : DB) (a : RowsArgs) (sh : Nat) : List Nat :=
+  let start := match a.previous with
+    | some p => p + 1
+    | none => 0
+  match a.column with
+  | some col =>
+    if col / shardWidth ≠ sh then []
+    else (viewStores db a.field sh (rowsViews db a)).flatMap (fun s => Spec.fragRows s start (some (col % shardWidth)) none)
+  | none => (viewStores db a.field sh (rowsViews db a)).flatMap (fun s => Spec.fragRows s start none none)
+
+theorem rowsShard_spec (db : DB) (hwf : db.WF) (a : RowsArgs) (sh : Nat) :
+    rowsShard db a sh = (sortDedup (shardRows db a sh)).take (a.limit.getD noLimit) := by
+  have hw : ∀ v s, db.frag ⟨a.field, v, sh⟩ = some s → s.WF := by
+    intro v s h
+    exact hwf.2 _ ((db.frag_iff hwf _ s).mp h)
+  unfold rowsShard shardRows
+  simp only
+  cases hcol : a.column with
+  | none =>
+    simp only
+    cases hprev : a.previous with
+    | none =>
+      simp only
+      have := rowsShardLoop_spec db a sh 0 none (fun x h => by cases h) hw (rowsViews db a) []
+      simpa [colFilter, sortDedup] using this
+    | some p =>
+      simp only
+      have := rowsShardLoop_spec db a sh (p + 1) none (fun x h => by cases h) hw (rowsViews db a) []
+      simpa [colFilter, sortDedup] using this
+  | some col =>
+    simp only
+    have hlt : col % shardWidth < shardWidth := Nat.mod_lt _ (by decide)
+    split
+    · simp [sortDedup]
+    · cases hprev : a.previous with
+      | none =>
+        simp only
+        have := rowsShardLoop_spec db a sh 0 (some (col % shardWidth)) (fun x h => by cases h; exact hlt) hw (rowsViews db a) []
+        simpa [colFilter, sortDedup] using this
+      | some p =>
+        simp only
+        have := rowsShardLoop_spec db a sh (p + 1) (some (col % shardWidth)) (fun x h => by cases h; exact hlt) hw (rowsViews db a) []
+        simpa [colFilter, sortDedup] using this
+
+theorem rows_fold_spec (db : DB) (hwf : db.WF) (a : RowsArgs) (shs : List Nat) (X : List Nat) :
+    shs.foldl (fun acc sh => PV.C17.rowIDsMerge acc (rowsShard db a sh) (a.limit.getD noLimit))
+        ((sortDedup X).take (a.limit.getD noLimit)) =
+      (sortDedup (X ++ shs.flatMap (shardRows db a))).take (a.limit.getD noLimit) := by
+  induction shs generalizing X with
+  | nil => simp
+  | cons sh rest ih =>
+    simp only [List.foldl_cons, List.flatMap_cons]
+    rw [rowsShard_spec db hwf a sh, merge_step X _ (sorted_sortDedup _) _ _ (Nat.le_refl _), sortDedup_idem_append_right]
+    rw [← List.append_assoc]
+    exact ih _
+
+/-- Is a view one that Rows() ranges over? (standard view without a time range, the day views of the
+range otherwise) -/
+def viewOK (db : DB) (field : Nat) (fromDay toDay : Option Nat) (v : Option Nat) : Bool :=
+  if (db.timeFields.contains field && (fromDay.isSome || toDay.isSome)) = true then
+    (match v with | some d => Spec.inRange fromDay toDay d | none => false)
+  else v.isNone
+
+theorem view_equiv (db : DB) (a : RowsArgs) (v : Option Nat) (sh : Nat) (s : Store)
+    (hmem : (⟨a.field, v, sh⟩, s) ∈ db.frags) :
+    v ∈ rowsViews db a ↔ viewOK db a.field a.fromDay a.toDay v = true := by
+  unfold rowsViews viewOK
+  by_cases ht : (db.timeFields.contains a.field && (a.fromDay.isSome || a.toDay.isSome)) = true
+  · have ht' : db.timeFields.contains a.field = true ∧ (a.fromDay.isSome = true ∨ a.toDay.isSome = true) := by
+      simpa using ht
+    rw [if_pos ht, if_pos ht']
+    cases v with
+    | none =>
+      simp only [Bool.false_eq_true, iff_false]
+      intro h
+      split at h
+      · simp at h
+      · simp at h
+    | some d =>
+      have hd := mem_days db a.field d sh s hmem
+      cases hmn : listMin? (db.days a.field) with
+      | none => rw [listMin?_none _ hmn] at hd; cases hd
+      | some mn =>
+        cases hmx : listMax? (db.days a.field) with
+        | none => rw [listMax?_none _ hmx] at hd; cases hd
+        | some mx =>
+          have h1 := listMin?_le _ mn hmn d hd
+          have h2 := listMax?_ge _ mx hmx d hd
+          simp only [List.mem_map, List.mem_filter, List.mem_range, decide_eq_true_eq, Option.some.injEq,
+            exists_eq_right, Spec.inRange, Bool.and_eq_true]
+          constructor
+          · rintro ⟨hlt, hge⟩
+            constructor
+            · cases hf : a.fromDay with
+              | none => rfl
+              | some f => simp only [hf] at hge; simp only [decide_eq_true_eq]; split at hge <;> omega
+            · cases htd : a.toDay with
+              | none => rfl
+              | some t => simp only [htd] at hlt; simp only [decide_eq_true_eq]; split at hlt <;> omega
+          · rintro ⟨hf, htd⟩
+            constructor
+            · cases htd' : a.toDay with
+              | none => simp only; omega
+              | some t => simp only [htd', decide_eq_true_eq] at htd ⊢; split <;> omega
+            · cases hf' : a.fromDay with
+              | none => simp only; omega
+              | some f => simp only [hf', decide_eq_true_eq] at hf ⊢; split <;> omega
+  · have ht2 : ¬ (db.timeFields.contains a.field = true ∧ (a.fromDay.isSome = true ∨ a.toDay.isSome = true)) := by
+      simpa using ht
+    rw [if_neg ht, if_neg ht2]
+    cases v <;> simp
+
+theorem mem_viewStores (db : DB) (hwf : db.WF) (field sh : Nat) (views : List (Option Nat)) (s : Store) :
+    s ∈ viewStores db field sh views ↔ ∃ v ∈ views, (⟨field, v, sh⟩, s) ∈ db.frags := by
+  simp only [viewStores, List.mem_filterMap]
+  constructor
+  · rintro ⟨v, hv, hf⟩; exact ⟨v, hv, (db.frag_iff hwf _ s).mp hf⟩
+  · rintro ⟨v, hv, hf⟩; exact ⟨v, hv, (db.frag_iff hwf _ s).mpr hf⟩
+
+theorem mem_allRows (db : DB) (field : Nat) (column fromDay toDay : Option Nat) (shards : List Nat) (x : Nat) :
+    x ∈ Spec.allRows db field column fromDay toDay shards ↔
+      ∃ p ∈ db.frags, p.1.field = field ∧
+        (match column with | none => p.1.shard ∈ shards | some c => p.1.shard = c / shardWidth) ∧
+        viewOK db field fromDay toDay p.1.view = true ∧
+        ∃ b ∈ p.2, (match column with | none => True | some c => b.2 = c % shardWidth) ∧ b.1 = x := by
+  have hview : ∀ v : Option Nat,
+      (if (db.timeFields.contains field && (fromDay.isSome || toDay.isSome)) = true then
+        (match v with | some d => Spec.inRange fromDay toDay d | none => false) else v.isNone) =
+      viewOK db field fromDay toDay v := by
+    intro v; cases v <;> rfl
+  simp only [Spec.allRows, mem_sortDedup, List.mem_flatMap, List.mem_filter, List.mem_map, Bool.and_eq_true,
+    beq_iff_eq]
+  constructor
+  · rintro ⟨p, ⟨hp, ⟨hf, hsh⟩, hv⟩, b, ⟨hb, hc⟩, hx⟩
+    refine ⟨p, hp, hf, ?_, ?_, b, hb, ?_, hx⟩
+    · cases column with
+      | none => simpa using hsh
+      | some c => simpa using hsh
+    · rw [← hview]; cases hpv : p.1.view <;> simp only [hpv] at hv ⊢ <;> simpa using hv
+    · cases column with
+      | none => trivial
+      | some c => simpa using hc
+  · rintro ⟨p, hp, hf, hsh, hv, b, hb, hc, hx⟩
+    refine ⟨p, ⟨hp, ⟨hf, ?_⟩, ?_⟩, b, ⟨hb, ?_⟩, hx⟩
+    · cases column with
+      | none => simpa using hsh
+      | some c => simpa using hsh
+    · rw [← hview] at hv; cases hpv : p.1.view <;> simp only [hpv] at hv ⊢ <;> simpa using hv
+    · cases column with
+      | none => rfl
+      | some c => simpa using hc
+
+/-- Rows() through the executor — every view of the time range, every shard, `previous`, `column`,
+`limit`, the per-view limit filters and all the `RowIDs.merge` calls — returns the first
+`limit` (the Go code uses MaxInt when no limit is given) of the rows after `previous` that have a
+bit in the column / time range, ascending and duplicate-free. -/
+theorem C16_rows_exec (db : DB) (hwf : db.WF) (a : RowsArgs) (shards : List Nat) :
+    rows db a shards =
+      (Spec.rows db { a with limit := none } shards).take (a.limit.getD noLimit) := by
+  have hfold : ∀ shs : List Nat,
+      shs.foldl (fun acc sh => PV.C17.rowIDsMerge acc (rowsShard db a sh) (a.limit.getD noLimit)) [] =
+        (sortDedup (shs.flatMap (shardRows db a))).take (a.limit.getD noLimit) := by
+    intro shs
+    have := rows_fold_spec db hwf a shs []
+    simpa [sortDedup] using this
+  unfold rows
+  simp only
+  rw [hfold]
+  congr 1
+  -- both sides are ascending and duplicate-free: compare members
+  apply sorted_ext _ _ (sorted_sortDedup _)
+  · simp only [Spec.rows, Spec.page, Spec.allRows]
+    exact (sorted_sortDedup _).filter _
+  intro x
+  simp only [Spec.rows, Spec.page, mem_sortDedup, List.mem_filter, mem_allRows, List.mem_flatMap]
+  cases hcol : a.column with
+  | none =>
+    simp only [shardRows, hcol, List.mem_flatMap, mem_viewStores db hwf, mem_spec_fragRows]
+    constructor
+    · rintro ⟨sh, hsh, s, ⟨v, hv, hmem⟩, ⟨b, hb, hbx⟩, hstart, _⟩
+      refine ⟨⟨(⟨a.field, v, sh⟩, s), hmem, rfl, hsh, (view_equiv db a v sh s hmem).mp hv, b, hb, trivial, hbx⟩, ?_⟩
+      cases hp : a.previous with
+      | none => rfl
+      | some p => simp only [hp] at hstart; simp only [decide_eq_true_eq]; omega
+    · rintro ⟨⟨p, hp, hf, hsh, hv, b, hb, _, hbx⟩, hprev⟩
+      obtain ⟨⟨f, v, sh⟩, s⟩ := p
+      simp only at hf hsh hv hb
+      subst hf
+      refine ⟨sh, hsh, s, ⟨v, (view_equiv db a v sh s hp).mpr hv, hp⟩, ⟨b, hb, hbx⟩, ?_, fun c h => by cases h⟩
+      cases hp' : a.previous with
+      | none => exact Nat.zero_le _
+      | some q => simp only [hp', decide_eq_true_eq] at hprev; simp only; omega
+  | some col =>
+    simp only [shardRows, hcol, List.mem_cons, List.not_mem_nil, or_false, exists_eq_left, ne_eq, not_true_eq_false,
+      if_false, List.mem_flatMap, mem_viewStores db hwf, mem_spec_fragRows]
+    constructor
+    · rintro ⟨s, ⟨v, hv, hmem⟩, ⟨b, hb, hbx⟩, hstart, hc⟩
+      have hxc := hc (col % shardWidth) rfl
+      refine ⟨⟨(⟨a.field, v, col / shardWidth⟩, s), hmem, rfl, rfl, (view_equiv db a v _ s hmem).mp hv,
+        (x, col % shardWidth), hxc, rfl, rfl⟩, ?_⟩
+      cases hp : a.previous with
+      | none => rfl
+      | some p => simp only [hp] at hstart; simp only [decide_eq_true_eq]; omega
+    · rintro ⟨⟨p, hp, hf, hsh, hv, b, hb, hbc, hbx⟩, hprev⟩
+      obtain ⟨⟨f, v, sh⟩, s⟩ := p
+      simp only at hf hsh hv hb
+      subst hf; subst hsh
+      have hbeq : b = (x, col % shardWidth) := by
+        cases b; simp only at hbc hbx; rw [hbc, hbx]
+      refine ⟨s, ⟨v, (view_equiv db a v _ s hp).mpr hv, hp⟩, ⟨b, hb, hbx⟩, ?_, ?_⟩
+      · cases hp' : a.previous with
+        | none => exact Nat.zero_le _
+        | some q => simp only [hp', decide_eq_true_eq] at hprev; simp only; omega
+      · intro c hc
+        cases hc
+        rw [← hbeq]; exact hb
+
+/-- With an explicit limit the executor's Rows is exactly the specification. -/
+theorem C16_rows_exec_limit (db : DB) (hwf : db.WF) (a : RowsArgs) (shards : List Nat) (l : Nat)
+    (hl : a.limit = some l) : rows db a shards = Spec.rows db a shards := by
+  rw [C16_rows_exec db hwf a shards, hl]
+  simp only [Option.getD_some, Spec.rows, Spec.page, hl]
 
 /-! ### MinRow / MaxRow on one fragment -/
 
@@ -213,5 +512,465 @@ theorem C16_minmax (s : Store) (hwf : s.WF) (filter : Option (List Nat)) :
           · have := (List.pairwise_cons.mp (List.pairwise_append.mp hsr).2.1).1 r hp'
             omega
       · have := hmem r hrm; omega
+
+/-! ### paging -/
+
+def natLt (a b : Nat) : Bool := decide (a < b)
+
+/-- One Rows request with `previous` and `limit` is a page of the unpaged answer. -/
+theorem rows_is_page (db : DB) (a : RowsArgs) (shards : List Nat) (prev : Option Nat) (l : Nat) :
+    Spec.rows db { a with previous := prev, limit := some l } shards =
+      Paging.pageAfter natLt (Spec.rows db { a with previous := none, limit := none } shards) prev l := by
+  simp only [Spec.rows, Spec.page, Paging.pageAfter]
+  congr 1
+  rw [List.filter_filter]
+  apply List.filter_congr
+  intro r _
+  cases prev <;> simp [natLt]
+
+theorem spec_rows_sorted (db : DB) (a : RowsArgs) (shards : List Nat) :
+    (Spec.rows db { a with previous := none, limit := none } shards).Pairwise (fun x y => natLt x y = true) := by
+  simp only [Spec.rows, Spec.page, Spec.allRows]
+  apply List.Pairwise.filter
+  apply (sorted_sortDedup _).imp
+  intro x y h
+  simp [natLt, h]
+
+/-- C16 paging for Rows: requesting pages with `limit = l` and `previous` = last row of the page
+before (each such request is `rows_is_page`), until a page comes back empty, and concatenating
+them gives exactly the unpaged Rows answer (any field, column, time range, shards). -/
+theorem C16_paging (db : DB) (a : RowsArgs) (shards : List Nat) (l : Nat) (hl : l > 0) :
+    let full := Spec.rows db { a with previous := none, limit := none } shards
+    Paging.pagePrev natLt full l (full.length + 1) none [] = full := by
+  intro full
+  apply Paging.pagePrev_all natLt _ _ full (spec_rows_sorted db a shards) l hl
+  · intro x y z h1 h2
+    simp only [natLt, decide_eq_true_eq] at *
+    omega
+  · intro x; simp [natLt]
+
+/-- The same for the model of the code: every page request the executor answers is the corresponding
+page of the unpaged specification, so the loop of `C16_paging` run against the code yields the
+unpaged answer. -/
+theorem C16_paging_exec (db : DB) (hwf : db.WF) (a : RowsArgs) (shards : List Nat) (prev : Option Nat) (l : Nat) :
+    rows db { a with previous := prev, limit := some l } shards =
+      Paging.pageAfter natLt (Spec.rows db { a with previous := none, limit := none } shards) prev l := by
+  rw [C16_rows_exec_limit db hwf { a with previous := prev, limit := some l } shards l rfl]
+  exact rows_is_page db a shards prev l
+
+/-- The slicing at the end of executeGroupBy: with the offset/limit repair, offset `o` and limit `l`
+select `(merged.drop o).take l`. -/
+theorem groupBy_slice (merged : List PV.C17.GroupCount) (o l : Nat) :
+    (let res := if o < merged.length then merged.drop o else []
+     if l < res.length then res.take l else res) = (merged.drop o).take l := by
+  simp only
+  by_cases ho : o < merged.length
+  · simp only [ho, if_true]
+    by_cases hl : l < (merged.drop o).length
+    · simp only [hl, if_true]
+    · simp only [hl, if_false]
+      exact (List.take_of_length_le (Nat.le_of_not_lt hl)).symm
+  · simp only [ho, if_false]
+    have : merged.drop o = [] := List.drop_eq_nil_iff.mpr (Nat.le_of_not_lt ho)
+    simp [this]
+
+/-- GroupBy, the part proved so far.
+
+Full-strength statement (kept here, checked on every run by the correspondence harness and by the
+`#spec` oracle of pm_c16, not yet proved):
+
+    theorem C16_groupby (db : DB) (hwf : db.WF) (a : GroupByArgs) (shards : List Nat)
+        (hprev : every child carries `previous` or none does) :
+        groupBy db a shards = Spec.groupBy db a shards
+
+i.e. `newGroupByIterator` / `nextAtIdx` / `Next` (seek to `previous`, wrap-around, pruning of empty
+prefixes) enumerate exactly the row combinations with a non-zero count in ascending order with exact
+counts, and the per-shard limit together with `mergeGroupCounts` keeps the first limit+offset of
+them. EXCLUDED from the theorem below: the iterator and the merge. PROVED: what executeGroupBy does
+with the merged list — fetching `limit+offset` groups and slicing (the repaired code) returns
+exactly groups `offset … offset+limit-1` of the full ordered list `all`, for every offset and limit. -/
+theorem C16_groupby_partial (all : List PV.C17.GroupCount) (o l : Nat) :
+    (let merged := all.take (l + o)      -- what the shards and the merge keep: fetchLimit = l + o
+     let res := if o < merged.length then merged.drop o else []
+     if l < res.length then res.take l else res) = (all.drop o).take l := by
+  have := groupBy_slice (all.take (l + o)) o l
+  simp only at this ⊢
+  rw [this, List.drop_take]
+  simp [List.take_take]
+
+/-- C16 paging for GroupBy by offset: the pages `offset = 0, l, 2l, …` with `limit = l`, requested
+until a page comes back empty, concatenate to the whole ordered list of groups. -/
+theorem C16_paging_offset (groups : List PV.C17.GroupCount) (l : Nat) (hl : l > 0) :
+    Paging.pageOffset groups l (groups.length + 1) 0 [] = groups :=
+  Paging.pageOffset_all groups l hl
+
+/-! ### MinRow / MaxRow through the executor -/
+
+section MinMaxExec
+open PV.C17 (Pair minRowReduce maxRowReduce)
+
+/-- bits of `row` (inside the filter) in the standard fragment of `field` on shard `sh` -/
+def shardCount (db : DB) (field : Nat) (filter : Option (Nat → List Nat)) (sh r : Nat) : Nat :=
+  match db.frag ⟨field, none, sh⟩ with
+  | none => 0
+  | some s => rowCount s r (filter.map (· sh))
+
+/-- what one shard hands to the MinRow reduce -/
+def shardMin (db : DB) (field : Nat) (filter : Option (Nat → List Nat)) (sh : Nat) : Pair :=
+  match db.frag ⟨field, none, sh⟩ with
+  | none => Pair.zero
+  | some s => pairOf (minRow s (filter.map (· sh)))
+
+def shardMax (db : DB) (field : Nat) (filter : Option (Nat → List Nat)) (sh : Nat) : Pair :=
+  match db.frag ⟨field, none, sh⟩ with
+  | none => Pair.zero
+  | some s => pairOf (maxRow s (filter.map (· sh)))
+
+theorem shardMin_spec (db : DB) (hwf : db.WF) (field : Nat) (filter : Option (Nat → List Nat)) (sh : Nat) :
+    (shardMin db field filter sh = Pair.zero ∧ ∀ r, shardCount db field filter sh r = 0) ∨
+    ((shardMin db field filter sh).count > 0 ∧
+      (shardMin db field filter sh).count = shardCount db field filter sh (shardMin db field filter sh).id ∧
+      ∀ r, shardCount db field filter sh r > 0 → (shardMin db field filter sh).id ≤ r) := by
+  unfold shardMin shardCount
+  cases hf : db.frag ⟨field, none, sh⟩ with
+  | none => left; exact ⟨rfl, fun _ => rfl⟩
+  | some s =>
+    have hs : s.WF := hwf.2 _ ((db.frag_iff hwf _ s).mp hf)
+    rcases (C16_minmax s hs (filter.map (· sh))).1 with ⟨h1, h2⟩ | ⟨m, h1, h2, h3⟩
+    · left; simp only; rw [h1]; exact ⟨rfl, h2⟩
+    · right; simp only; rw [h1]; exact ⟨h2, rfl, h3⟩
+
+theorem shardMax_spec (db : DB) (hwf : db.WF) (field : Nat) (filter : Option (Nat → List Nat)) (sh : Nat) :
+    (shardMax db field filter sh = Pair.zero ∧ ∀ r, shardCount db field filter sh r = 0) ∨
+    ((shardMax db field filter sh).count > 0 ∧
+      (shardMax db field filter sh).count = shardCount db field filter sh (shardMax db field filter sh).id ∧
+      ∀ r, shardCount db field filter sh r > 0 → r ≤ (shardMax db field filter sh).id) := by
+  unfold shardMax shardCount
+  cases hf : db.frag ⟨field, none, sh⟩ with
+  | none => left; exact ⟨rfl, fun _ => rfl⟩
+  | some s =>
+    have hs : s.WF := hwf.2 _ ((db.frag_iff hwf _ s).mp hf)
+    rcases (C16_minmax s hs (filter.map (· sh))).2 with ⟨h1, h2⟩ | ⟨m, h1, h2, h3⟩
+    · left; simp only; rw [h1]; exact ⟨rfl, h2⟩
+    · right; simp only; rw [h1]; exact ⟨h2, rfl, h3⟩
+
+theorem sum_zero_of_all_zero (l : List Nat) (h : ∀ x ∈ l, x = 0) : l.sum = 0 := by
+  induction l with
+  | nil => rfl
+  | cons a rest ih =>
+    simp only [List.sum_cons]
+    rw [h a (by simp), ih (fun x hx => h x (List.mem_cons_of_mem _ hx))]
+
+/-- The fold of the MinRow reducer over shards, for any per-shard count function. -/
+theorem minFold (cnt : Nat → Nat → Nat) (q : Nat → Pair)
+    (hq : ∀ sh, (q sh = Pair.zero ∧ ∀ r, cnt sh r = 0) ∨
+      ((q sh).count > 0 ∧ (q sh).count = cnt sh (q sh).id ∧ ∀ r, cnt sh r > 0 → (q sh).id ≤ r))
+    (shards : List Nat) :
+    ∀ (done : List Nat) (acc : Pair),
+      ((acc = Pair.zero ∧ ∀ sh ∈ done, ∀ r, cnt sh r = 0) ∨
+        (acc.count > 0 ∧ acc.count = (done.map (fun sh => cnt sh acc.id)).sum ∧
+          ∀ sh ∈ done, ∀ r, cnt sh r > 0 → acc.id ≤ r)) →
+      let res := shards.foldl (fun acc sh => minRowReduce acc (q sh)) acc
+      ((res = Pair.zero ∧ ∀ sh ∈ done ++ shards, ∀ r, cnt sh r = 0) ∨
+        (res.count > 0 ∧ res.count = ((done ++ shards).map (fun sh => cnt sh res.id)).sum ∧
+          ∀ sh ∈ done ++ shards, ∀ r, cnt sh r > 0 → res.id ≤ r)) := by
+  induction shards with
+  | nil => intro done acc h; simpa using h
+  | cons sh rest ih =>
+    intro done acc h
+    simp only [List.foldl_cons]
+    have hstep : ((minRowReduce acc (q sh) = Pair.zero ∧ ∀ s ∈ done ++ [sh], ∀ r, cnt s r = 0) ∨
+        ((minRowReduce acc (q sh)).count > 0 ∧
+          (minRowReduce acc (q sh)).count = ((done ++ [sh]).map (fun s => cnt s (minRowReduce acc (q sh)).id)).sum ∧
+          ∀ s ∈ done ++ [sh], ∀ r, cnt s r > 0 → (minRowReduce acc (q sh)).id ≤ r)) := by
+      simp only [List.map_append, List.sum_append, List.map_cons, List.map_nil, List.sum_cons, List.sum_nil,
+        Nat.add_zero, List.mem_append, List.mem_cons, List.not_mem_nil, or_false]
+      rcases h with ⟨ha, hz⟩ | ⟨hc, hs, hm⟩
+      · -- nothing so far
+        subst ha
+        rcases hq sh with ⟨hq0, hqz⟩ | ⟨hqc, hqs, hqm⟩
+        · left
+          refine ⟨by rw [hq0]; rfl, ?_⟩
+          rintro s (hs | hs) r
+          · exact hz s hs r
+          · rw [hs]; exact hqz r
+        · right
+          have hred : minRowReduce Pair.zero (q sh) = q sh := by simp [minRowReduce, Pair.zero]
+          rw [hred]
+          refine ⟨hqc, ?_, ?_⟩
+          · have : (done.map (fun s => cnt s (q sh).id)).sum = 0 :=
+              sum_zero_of_all_zero _ (by
+                intro x hx
+                rcases List.mem_map.mp hx with ⟨s, hs, rfl⟩
+                exact hz s hs _)
+            rw [this, hqs]; simp
+          · rintro s (hs | hs) r hr
+            · have := hz s hs r; omega
+            · rw [hs] at hr; exact hqm r hr
+      · rcases hq sh with ⟨hq0, hqz⟩ | ⟨hqc, hqs, hqm⟩
+        · right
+          have hred : minRowReduce acc (q sh) = acc := by
+            rw [hq0]; simp only [minRowReduce, Pair.zero]
+            have : ¬ (acc.count > 0 ∧ (0 : Nat) > 0) := fun h => absurd h.2 (Nat.lt_irrefl 0)
+            simp [hc]
+          rw [hred]
+          refine ⟨hc, ?_, ?_⟩
+          · rw [hqz acc.id]; simpa using hs
+          · rintro s (hs' | hs') r hr
+            · exact hm s hs' r hr
+            · rw [hs'] at hr; have := hqz r; omega
+        · right
+          by_cases heq : acc.id = (q sh).id
+          · have hred : minRowReduce acc (q sh) = ⟨(q sh).id, (q sh).count + acc.count⟩ := by
+              simp [minRowReduce, hc, hqc, heq]
+            rw [hred]
+            refine ⟨by simp only; omega, ?_, ?_⟩
+            · simp only; rw [← heq, ← hs, hqs, heq]; omega
+            · simp only
+              rintro s (hs' | hs') r hr
+              · rw [← heq]; exact hm s hs' r hr
+              · rw [hs'] at hr; exact hqm r hr
+          · by_cases hlt : acc.id < (q sh).id
+            · have hred : minRowReduce acc (q sh) = acc := by
+                simp [minRowReduce, hc, hqc, heq, hlt]
+              rw [hred]
+              have hz0 : cnt sh acc.id = 0 := by
+                apply Nat.eq_zero_of_not_pos
+                intro hp
+                have := hqm acc.id hp
+                omega
+              refine ⟨hc, by rw [hz0]; simpa using hs, ?_⟩
+              rintro s (hs' | hs') r hr
+              · exact hm s hs' r hr
+              · rw [hs'] at hr; have := hqm r hr; omega
+            · have hgt : (q sh).id < acc.id := by omega
+              have hred : minRowReduce acc (q sh) = q sh := by
+                simp [minRowReduce, hc, hqc, heq, hlt]
+              rw [hred]
+              have hz0 : (done.map (fun s => cnt s (q sh).id)).sum = 0 :=
+                sum_zero_of_all_zero _ (by
+                  intro x hx
+                  rcases List.mem_map.mp hx with ⟨s, hs', rfl⟩
+                  apply Nat.eq_zero_of_not_pos
+                  intro hp
+                  have := hm s hs' _ hp
+                  omega)
+              refine ⟨hqc, by rw [hz0, hqs]; simp, ?_⟩
+              rintro s (hs' | hs') r hr
+              · have := hm s hs' r hr; omega
+              · rw [hs'] at hr; exact hqm r hr
+    have := ih (done ++ [sh]) (minRowReduce acc (q sh)) hstep
+    simpa [List.append_assoc] using this
+
+/-- The fold of the MaxRow reducer over shards. -/
+theorem maxFold (cnt : Nat → Nat → Nat) (q : Nat → Pair)
+    (hq : ∀ sh, (q sh = Pair.zero ∧ ∀ r, cnt sh r = 0) ∨
+      ((q sh).count > 0 ∧ (q sh).count = cnt sh (q sh).id ∧ ∀ r, cnt sh r > 0 → r ≤ (q sh).id))
+    (shards : List Nat) :
+    ∀ (done : List Nat) (acc : Pair),
+      ((acc = Pair.zero ∧ ∀ sh ∈ done, ∀ r, cnt sh r = 0) ∨
+        (acc.count > 0 ∧ acc.count = (done.map (fun sh => cnt sh acc.id)).sum ∧
+          ∀ sh ∈ done, ∀ r, cnt sh r > 0 → r ≤ acc.id)) →
+      let res := shards.foldl (fun acc sh => maxRowReduce acc (q sh)) acc
+      ((res = Pair.zero ∧ ∀ sh ∈ done ++ shards, ∀ r, cnt sh r = 0) ∨
+        (res.count > 0 ∧ res.count = ((done ++ shards).map (fun sh => cnt sh res.id)).sum ∧
+          ∀ sh ∈ done ++ shards, ∀ r, cnt sh r > 0 → r ≤ res.id)) := by
+  induction shards with
+  | nil => intro done acc h; simpa using h
+  | cons sh rest ih =>
+    intro done acc h
+    simp only [List.foldl_cons]
+    have hstep : ((maxRowReduce acc (q sh) = Pair.zero ∧ ∀ s ∈ done ++ [sh], ∀ r, cnt s r = 0) ∨
+        ((maxRowReduce acc (q sh)).count > 0 ∧
+          (maxRowReduce acc (q sh)).count = ((done ++ [sh]).map (fun s => cnt s (maxRowReduce acc (q sh)).id)).sum ∧
+          ∀ s ∈ done ++ [sh], ∀ r, cnt s r > 0 → r ≤ (maxRowReduce acc (q sh)).id)) := by
+      simp only [List.map_append, List.sum_append, List.map_cons, List.map_nil, List.sum_cons, List.sum_nil,
+        Nat.add_zero, List.mem_append, List.mem_cons, List.not_mem_nil, or_false]
+      rcases h with ⟨ha, hz⟩ | ⟨hc, hs, hm⟩
+      · -- nothing so far
+        subst ha
+        rcases hq sh with ⟨hq0, hqz⟩ | ⟨hqc, hqs, hqm⟩
+        · left
+          refine ⟨by rw [hq0]; rfl, ?_⟩
+          rintro s (hs | hs) r
+          · exact hz s hs r
+          · rw [hs]; exact hqz r
+        · right
+          have hred : maxRowReduce Pair.zero (q sh) = q sh := by simp [maxRowReduce, Pair.zero]
+          rw [hred]
+          refine ⟨hqc, ?_, ?_⟩
+          · have : (done.map (fun s => cnt s (q sh).id)).sum = 0 :=
+              sum_zero_of_all_zero _ (by
+                intro x hx
+                rcases List.mem_map.mp hx with ⟨s, hs, rfl⟩
+                exact hz s hs _)
+            rw [this, hqs]; simp
+          · rintro s (hs | hs) r hr
+            · have := hz s hs r; omega
+            · rw [hs] at hr; exact hqm r hr
+      · rcases hq sh with ⟨hq0, hqz⟩ | ⟨hqc, hqs, hqm⟩
+        · right
+          have hred : maxRowReduce acc (q sh) = acc := by
+            rw [hq0]; simp only [maxRowReduce, Pair.zero]
+            have : ¬ (acc.count > 0 ∧ (0 : Nat) > 0) := fun h => absurd h.2 (Nat.lt_irrefl 0)
+            simp [hc]
+          rw [hred]
+          refine ⟨hc, ?_, ?_⟩
+          · rw [hqz acc.id]; simpa using hs
+          · rintro s (hs' | hs') r hr
+            · exact hm s hs' r hr
+            · rw [hs'] at hr; have := hqz r; omega
+        · right
+          by_cases heq : acc.id = (q sh).id
+          · have hred : maxRowReduce acc (q sh) = ⟨(q sh).id, (q sh).count + acc.count⟩ := by
+              simp [maxRowReduce, hc, hqc, heq]
+            rw [hred]
+            refine ⟨by simp only; omega, ?_, ?_⟩
+            · simp only; rw [← heq, ← hs, hqs, heq]; omega
+            · simp only
+              rintro s (hs' | hs') r hr
+              · rw [← heq]; exact hm s hs' r hr
+              · rw [hs'] at hr; exact hqm r hr
+          · by_cases hlt : acc.id > (q sh).id
+            · have hred : maxRowReduce acc (q sh) = acc := by
+                simp [maxRowReduce, hc, hqc, heq, hlt]
+              rw [hred]
+              have hz0 : cnt sh acc.id = 0 := by
+                apply Nat.eq_zero_of_not_pos
+                intro hp
+                have := hqm acc.id hp
+                omega
+              refine ⟨hc, by rw [hz0]; simpa using hs, ?_⟩
+              rintro s (hs' | hs') r hr
+              · exact hm s hs' r hr
+              · rw [hs'] at hr; have := hqm r hr; omega
+            · have hgt : (q sh).id > acc.id := by omega
+              have hred : maxRowReduce acc (q sh) = q sh := by
+                simp [maxRowReduce, hc, hqc, heq, hlt]
+              rw [hred]
+              have hz0 : (done.map (fun s => cnt s (q sh).id)).sum = 0 :=
+                sum_zero_of_all_zero _ (by
+                  intro x hx
+                  rcases List.mem_map.mp hx with ⟨s, hs', rfl⟩
+                  apply Nat.eq_zero_of_not_pos
+                  intro hp
+                  have := hm s hs' _ hp
+                  omega)
+              refine ⟨hqc, by rw [hz0, hqs]; simp, ?_⟩
+              rintro s (hs' | hs') r hr
+              · have := hm s hs' r hr; omega
+              · rw [hs'] at hr; exact hqm r hr
+    have := ih (done ++ [sh]) (maxRowReduce acc (q sh)) hstep
+    simpa [List.append_assoc] using this
+
+
+theorem minRowQ_eq (db : DB) (field : Nat) (filter : Option (Nat → List Nat)) (shards : List Nat) :
+    minRowQ db field filter shards =
+      shards.foldl (fun acc sh => minRowReduce acc (shardMin db field filter sh)) Pair.zero := by
+  unfold minRowQ
+  congr 1
+  funext acc sh
+  unfold shardMin
+  cases db.frag ⟨field, none, sh⟩ <;> rfl
+
+theorem maxRowQ_eq (db : DB) (field : Nat) (filter : Option (Nat → List Nat)) (shards : List Nat) :
+    maxRowQ db field filter shards =
+      shards.foldl (fun acc sh => maxRowReduce acc (shardMax db field filter sh)) Pair.zero := by
+  unfold maxRowQ
+  congr 1
+  funext acc sh
+  unfold shardMax
+  cases db.frag ⟨field, none, sh⟩ <;> rfl
+
+/-- MinRow / MaxRow through the executor (per-shard `fragment.minRow/maxRow` on the shard's part of
+the filter row, reduced over the shards in arrival order): nothing if no shard has a bit inside the
+filter; otherwise the smallest / largest row that has one on some shard, with the total number of
+its bits inside the filter over all shards. -/
+theorem C16_minmax_exec (db : DB) (hwf : db.WF) (field : Nat) (filter : Option (Nat → List Nat))
+    (shards : List Nat) :
+    let cnt := shardCount db field filter
+    let mn := minRowQ db field filter shards
+    let mx := maxRowQ db field filter shards
+    ((mn = Pair.zero ∧ ∀ sh ∈ shards, ∀ r, cnt sh r = 0) ∨
+      (mn.count > 0 ∧ mn.count = (shards.map (fun sh => cnt sh mn.id)).sum ∧
+        ∀ sh ∈ shards, ∀ r, cnt sh r > 0 → mn.id ≤ r)) ∧
+    ((mx = Pair.zero ∧ ∀ sh ∈ shards, ∀ r, cnt sh r = 0) ∨
+      (mx.count > 0 ∧ mx.count = (shards.map (fun sh => cnt sh mx.id)).sum ∧
+        ∀ sh ∈ shards, ∀ r, cnt sh r > 0 → r ≤ mx.id)) := by
+  intro cnt mn mx
+  have hmn : mn = shards.foldl (fun acc sh => minRowReduce acc (shardMin db field filter sh)) Pair.zero :=
+    minRowQ_eq db field filter shards
+  have hmx : mx = shards.foldl (fun acc sh => maxRowReduce acc (shardMax db field filter sh)) Pair.zero :=
+    maxRowQ_eq db field filter shards
+  constructor
+  · have := minFold cnt (shardMin db field filter) (shardMin_spec db hwf field filter) shards [] Pair.zero
+      (Or.inl ⟨rfl, fun sh hsh => absurd hsh (by simp)⟩)
+    simp only [List.nil_append] at this
+    rw [hmn]
+    exact this
+  · have := maxFold cnt (shardMax db field filter) (shardMax_spec db hwf field filter) shards [] Pair.zero
+      (Or.inl ⟨rfl, fun sh hsh => absurd hsh (by simp)⟩)
+    simp only [List.nil_append] at this
+    rw [hmx]
+    exact this
+
+end MinMaxExec
+
+/-! ### non-vacuity and the repaired behaviours -/
+
+/-- A store with rows in several containers satisfies the hypotheses of C16_rows / C16_minmax. -/
+example :
+    let s : Store := [(1, 0), (1, 65536), (3, 70000), (9, 5), (3, 2)]
+    s.WF ∧ fragRows s 1 (colFilter (some 70000) ++ limFilter (some 2)) = [3] ∧
+    fragRows s 0 (colFilter none ++ limFilter (some 2)) = [1, 3] ∧
+    minRow s (some [5, 70000]) = (3, 1) ∧ maxRow s none = (9, 1) := by
+  refine ⟨?_, by decide, by decide, by decide, by decide⟩
+  intro p hp
+  simp only [List.mem_cons, List.not_mem_nil, or_false] at hp
+  rcases hp with h | h | h | h | h <;> (rw [h]; decide)
+
+/-- A database with a time field over two days and two shards satisfies `DB.WF`; Rows with a limit
+takes the smallest rows although they live in the later view. -/
+example :
+    let db : DB := { timeFields := [3], frags :=
+      [(⟨3, none, 0⟩, [(5, 1), (6, 1), (1, 1), (2, 1)]), (⟨3, some 0, 0⟩, [(5, 1), (6, 1)]),
+       (⟨3, some 1, 0⟩, [(1, 1), (2, 1)]), (⟨3, some 1, 1⟩, [(4, 0)])] }
+    rows db { field := 3, limit := some 2, fromDay := some 0, toDay := some 3 } [0, 1] = [1, 2] ∧
+    rows db { field := 3, previous := some 2, fromDay := some 0 } [0, 1] = [4, 5, 6] := by decide
+
+namespace Legacy
+
+/-- `fragment.maxRow` before the repair: without a filter it answered (maxRowID, 1), with a filter it
+walked down from maxRowID; maxRowID is a high-water mark raised only by setBit. -/
+def maxRow (s : Store) (maxRowID : Nat) (filter : Option (List Nat)) : Nat × Nat :=
+  if s.isEmpty then (0, 0)
+  else match filter with
+    | none => (maxRowID, 1)
+    | some _ => firstWith s filter ((List.range (maxRowID + 1)).reverse)
+
+/-- executeGroupBy before the repair: the merge kept `limit` groups, then the offset was applied. -/
+def groupBySlice (all : List PV.C17.GroupCount) (o l : Nat) : List PV.C17.GroupCount :=
+  let merged := all.take l
+  let res := if o < merged.length then merged.drop o else merged
+  if l < res.length then res.take l else res
+
+end Legacy
+
+/-- Old behaviour (DESIGN section 8 #11): set then clear a bit in row 9 (maxRowID stays 9):
+maxRow(nil) answered (9, 1) while the only row with a bit is 1; and after an import (maxRowID
+still 0) MaxRow with a filter found nothing. The repaired function answers (1, 1) and (7, 1). -/
+theorem C16_maxRow_highwater_witness :
+    Legacy.maxRow [(1, 0)] 9 none = (9, 1) ∧ PV.C16.maxRow [(1, 0)] none = (1, 1) ∧
+    Legacy.maxRow [(3, 1), (7, 1)] 0 (some [1]) = (0, 0) ∧ PV.C16.maxRow [(3, 1), (7, 1)] (some [1]) = (7, 1) := by
+  decide
+
+/-- Old behaviour: GroupBy(limit=2, offset=1) over six groups returned one group, offset=2 returned
+the first page again; the repaired slicing returns groups 1-2 and 2-3. -/
+theorem C16_groupBy_offset_witness :
+    let g (i : Nat) : PV.C17.GroupCount := ⟨[i], 1⟩
+    let all := [g 0, g 1, g 2, g 3, g 4, g 5]
+    Legacy.groupBySlice all 1 2 = [g 1] ∧ Legacy.groupBySlice all 2 2 = [g 0, g 1] ∧
+    (all.drop 1).take 2 = [g 1, g 2] ∧ (all.drop 2).take 2 = [g 2, g 3] := by
+  decide
 
 end PV.C16
